@@ -180,6 +180,8 @@ def run_facet(prop, facet, tier, seed_value, muted, deadline, shard=0, nshards=1
             if time.time() > deadline and state.get("best") is None:
                 stats.budget_exhausted = True
                 raise _AbortShrink()
+            if state.get("t_fail") is not None and time.time() - state["t_fail"] > facet.shrink_s:
+                raise _AbortShrink()
             judge(case, state)
 
         test = given(facet.strategy(tier))(body)
